@@ -76,4 +76,59 @@ theorem smapGet_insert {α : Type} (m : List (String × α)) (k k' : String) (x 
 
 theorem range_length (a b : Nat) : (range a b).length = b - a := by simp [range]
 
+/-! ### round 8: maps with other than string keys, loops with early exit -/
+
+theorem omapGet_omapInsert {κ α : Type} [DecidableEq κ] (m : List (κ × α)) (k k' : κ) (x : α) :
+    omapGet (omapInsert m k x) k' = if k = k' then some x else omapGet m k' := by
+  induction m with
+  | nil => simp [omapInsert, omapGet]
+  | cons e m ih =>
+    obtain ⟨k0, v0⟩ := e
+    simp only [omapInsert]
+    by_cases h1 : k0 = k
+    · subst h1; simp [omapGet]; by_cases h2 : k0 = k' <;> simp [h2]
+    · simp only [h1, if_false, omapGet, ih]
+      by_cases h3 : k0 = k'
+      · have : ¬ k = k' := fun h => h1 (h3.trans h.symm)
+        simp [h3, this]
+      · simp [h3]
+
+theorem omapGet_nmapInsert {α : Type} (m : List (Nat × α)) (k k' : Nat) (x : α) :
+    omapGet (nmapInsert m k x) k' = if k = k' then some x else omapGet m k' := by
+  induction m with
+  | nil => simp [nmapInsert, omapGet]
+  | cons e m ih =>
+    obtain ⟨k0, v0⟩ := e
+    simp only [nmapInsert]
+    by_cases h1 : k0 = k
+    · subst h1; simp [omapGet]; by_cases h2 : k0 = k' <;> simp [h2]
+    · by_cases h2 : k < k0
+      · simp [h1, h2, omapGet]
+      · simp only [h1, h2, if_false, omapGet, ih]
+        by_cases h3 : k0 = k'
+        · have : ¬ k = k' := fun h => h1 (h3.trans h.symm)
+          simp [h3, this]
+        · simp [h3]
+
+@[simp] theorem loopM_nil {α σ ρ : Type} (s : σ) (f : σ → α → M (Flow σ ρ)) :
+    loopM ([] : List α) s f = Except.ok (.inl s) := rfl
+
+/-- a body that never leaves the loop early is the plain monadic fold -/
+theorem loopM_next {α σ ρ : Type} (f : σ → α → M (Flow σ ρ)) (g : σ → α → M σ)
+    (hf : ∀ s x, f s x = (g s x >>= fun s' => pure (.next s'))) :
+    ∀ (l : List α) (s : σ), loopM l s f = (List.foldlM g s l >>= fun s' => pure (.inl s')) := by
+  intro l
+  induction l with
+  | nil => intro s; rfl
+  | cons x xs ih =>
+    intro s
+    rw [loopM, hf, List.foldlM_cons]
+    cases h : g s x with
+    | error e => rfl
+    | ok s' => simp [ih]
+
+theorem slice_ok {α : Type} (l : List α) (a b : Nat) (h : a ≤ b ∧ b ≤ l.length) :
+    slice l a b = Except.ok ((l.drop a).take (b - a)) := by
+  simp [slice, h]
+
 end VlsModel.Rs
